@@ -21,7 +21,8 @@ EXPLANATION = (
     "only under exists(<its file>), every other path goes to recovery; (R3) initialisation refuses a recoverable table "
     "(C18.R1); (R4) no handler on the call tree of _current_version_info turns a storage failure into 'no table'; (R5) every "
     "known-not-committed exceptional exit after the metadata-file write passes a delete of that file (so recovery can never "
-    "surface a version that was never committed).")
+    "surface a version that was never committed)."
+    " Also: (R6) a failed pointer write on an atomic backend is a clean failure; (R7) version resolution is stateless; (R8) the pointer's ETag always reaches the conditional write; (R9) recovery's listing is complete.")
 NOT_DECIDED = ("byte-level pointer grammar x histories at run time; orphans left by a crash (no exception path exists to "
                "clean them - format limitation)")
 
